@@ -775,8 +775,15 @@ func scenarios(cfg *mc.Config, emit func(mc.Scenario)) {
 // handshake before its reply is one history; every client must obtain its own
 // request (target and arguments) and read exactly the reply issued for it --
 // state carried from one exchange into another would show here.
-func overlapScenario(nconn int) mc.Scenario {
-	return mc.Scenario{Name: fmt.Sprintf("overlap/%d-connections", nconn), Weight: 5, Run: func(c *mc.Ctx) {
+// intruder: the last connection is not a SOCKS5 client at all (an HTTP request
+// with bytes to spare): its exchange is refused, and the other connections'
+// requests and replies are what they would have been without it.
+func overlapScenario(nconn int, intruder bool) mc.Scenario {
+	name := fmt.Sprintf("overlap/%d-connections", nconn)
+	if intruder {
+		name += "/last-one-not-socks5"
+	}
+	return mc.Scenario{Name: name, Weight: 5, Run: func(c *mc.Ctx) {
 		tg := targets()
 		codes := []socks5.ReplyCode{socks5.ReplySucceeded, socks5.ReplyConnectionRefused, socks5.ReplyHostUnreachable}
 		// events: 2*i = handshake of i, 2*i+1 = reply to i
@@ -815,6 +822,9 @@ func overlapScenario(nconn int) mc.Scenario {
 				x.m[1] = userPass(encodeArgs([]kv{{fmt.Sprintf("key%d", i), fmt.Sprintf("value-%d;=", i)}}), 0)
 				x.m[2] = tg[i%len(tg)].encode()
 				x.e = decode(x.m[0], x.m[1], x.m[2])
+				if intruder && i == nconn-1 {
+					x.m[0] = []byte("GET / HTTP/1.1\r\nHost: www.example.com\r\nUser-Agent: curl/8\r\nAccept: */*\r\n\r\n")
+				}
 				cls[i] = x
 			}
 			res := sched.Run(c, sched.Options{NoPreempt: true, NoEarlyTimers: true, Start: start, MaxSteps: 1_000_000}, func() {
@@ -851,6 +861,11 @@ func overlapScenario(nconn int) mc.Scenario {
 					if ev%2 == 0 {
 						x.req, x.err = socks5.Handshake(x.sw)
 					} else if x.req != nil {
+						if (ev/2)%2 == 1 {
+							// the outgoing dial took a while: the reply is issued long
+							// after the 5 s allowed for the client's own messages
+							s.Advance(42 * time.Second)
+						}
 						x.replyErr = x.req.Reply(codes[(ev/2)%len(codes)])
 					}
 				}
@@ -865,6 +880,13 @@ func overlapScenario(nconn int) mc.Scenario {
 				return
 			}
 			for i, x := range cls {
+				if intruder && i == nconn-1 {
+					if x.err == nil {
+						fail(c, "reject", "overlap/intruder-accepted", "%s: an HTTP request was accepted as a SOCKS5 exchange", what)
+						return
+					}
+					continue
+				}
 				if x.err != nil || x.req == nil {
 					fail(c, "accept", "overlap/rejected", "%s: connection %d: Handshake failed: %v", what, i, x.err)
 					return
@@ -889,7 +911,9 @@ func overlapScenario(nconn int) mc.Scenario {
 func main() {
 	mc.Main("C17", func(cfg *mc.Config, emit func(mc.Scenario)) {
 		scenarios(cfg, emit)
-		emit(overlapScenario(2))
-		emit(overlapScenario(3))
+		emit(overlapScenario(2, false))
+		emit(overlapScenario(3, false))
+		emit(overlapScenario(2, true))
+		emit(overlapScenario(3, true))
 	})
 }
